@@ -4,6 +4,7 @@ import (
 	"fmt"
 	"go/constant"
 	"go/types"
+	"sort"
 	"strings"
 
 	"golang.org/x/tools/go/ssa"
@@ -114,6 +115,11 @@ func (x *Exec) invoke(fr *Frame, ins ssa.Instruction, c *ssa.CallCommon, st *Sta
 		args := append([]Value{recv}, x.argVals(fr, c)...)
 		return x.useContract(fr, ins, ic, args, st)
 	}
+	if countLeaves(recv, 0) <= 16 {
+		if v, ok := x.dispatch(fr, ins, c, recv, x.argVals(fr, c), st); ok {
+			return v
+		}
+	}
 	x.note("dynamic call %s.%s: result arbitrary, no modelled state changed, no panic (assumed)", shortTypeString(c.Value.Type()), c.Method.Name())
 	return x.havocResult(st, "invoke_"+c.Method.Name(), c.Signature().Results())
 }
@@ -132,6 +138,7 @@ func (x *Exec) staticCall(fr *Frame, ins ssa.Instruction, fn *ssa.Function, bind
 		// the call under verification: the real body, with safety obligations on
 		saved := x.specDepth
 		x.specDepth = 0
+		pre := st.clone()
 		res, nst := x.callFunction(fn, args, bindings, st)
 		x.specDepth = saved
 		if nst == nil {
@@ -139,6 +146,7 @@ func (x *Exec) staticCall(fr *Frame, ins ssa.Instruction, fn *ssa.Function, bind
 			return x.havocResult(st, "noreturn", fn.Signature.Results())
 		}
 		st.heap, st.alloc, st.guard = nst.heap, nst.alloc, nst.guard
+		x.frameCheck(pre, st, ins)
 		return packResults(res, nres)
 	}
 	if inModule(fn) && fn.Blocks != nil {
@@ -228,7 +236,12 @@ func (x *Exec) havocCall(fr *Frame, hc *HavocCall, args []Value, c *ssa.CallComm
 	for _, cn := range x.pendingModComps {
 		x.havocComp(st, cn)
 	}
-	x.pendingModifies, x.pendingModComps = nil, nil
+	for _, m := range x.pendingRows {
+		h := x.comp(st, m.comp, x.compSort[m.comp])
+		_, rowSort, _ := h.sort.arrParts()
+		st.heap[m.comp] = x.w.ts.Store(h, m.rowOf, x.w.Fresh("row", rowSort))
+	}
+	x.pendingModifies, x.pendingModComps, x.pendingRows = nil, nil, nil
 	x.bumpAlloc(st)
 	res := x.havocResult(st, "res_"+hc.c.Name, c.Signature().Results())
 	x.lastHavocResult = res
@@ -329,9 +342,9 @@ func (x *Exec) intrinsic(fr *Frame, ins ssa.Instruction, fn *ssa.Function, args 
 		n, srt := x.elemComp(et)
 		x.comp(st, n, srt)
 		if x.useMode > 0 {
-			h := st.heap[n]
-			_, rowSort, _ := srt.arrParts()
-			st.heap[n] = ts.Store(h, x.w.sArr(s), x.w.Fresh("row", rowSort))
+			x.pendingRows = append(x.pendingRows, modEntry{rowOf: x.w.sArr(s), comp: n})
+		} else {
+			x.declaredModifies = append(x.declaredModifies, modEntry{rowOf: x.w.sArr(s), comp: n})
 		}
 		return nil
 	case "Old":
@@ -594,4 +607,225 @@ func (x *Exec) copyBuiltin(fr *Frame, ins ssa.Instruction, c *ssa.CallCommon, st
 		ts.Eq(ts.Select(nr, k), ts.Select(oldRow, k)))))
 	st.heap[n] = ts.Store(h, x.w.sArr(dst), ts.Ite(ts.Eq(cnt, ts.BV(0, 64)), oldRow, nr))
 	return cnt
+}
+
+// countLeaves counts the leaves of an ite tree (capped).
+func countLeaves(t *Term, n int) int {
+	if n > 64 {
+		return n
+	}
+	if t.kind == kApp && t.op == "ite" {
+		n = countLeaves(t.args[1], n)
+		return countLeaves(t.args[2], n)
+	}
+	return n + 1
+}
+
+// dispatch devirtualises an interface method call when the receiver term is
+// (an ite tree of) known constructor applications: the concrete method is
+// called statically (its contract is used, or its body inlined).
+func (x *Exec) dispatch(fr *Frame, ins ssa.Instruction, c *ssa.CallCommon, recv *Term, args []Value, st *State) (Value, bool) {
+	ts := x.w.ts
+	if recv.kind == kApp && recv.op == "ite" {
+		cond := recv.args[0]
+		sa, sb := st.clone(), st.clone()
+		sa.guard = ts.And(st.guard, cond)
+		sb.guard = ts.And(st.guard, ts.Not(cond))
+		var ra, rb Value
+		oka, okb := true, true
+		if !sa.guard.isFalse() {
+			ra, oka = x.dispatch(fr, ins, c, recv.args[1], args, sa)
+		}
+		if !sb.guard.isFalse() {
+			rb, okb = x.dispatch(fr, ins, c, recv.args[2], args, sb)
+		}
+		if !oka || !okb {
+			return nil, false
+		}
+		switch {
+		case sa.guard.isFalse():
+			st.heap, st.alloc, st.guard = sb.heap, sb.alloc, sb.guard
+			return rb, true
+		case sb.guard.isFalse():
+			st.heap, st.alloc, st.guard = sa.heap, sa.alloc, sa.guard
+			return ra, true
+		}
+		m := x.mergeStates([]*Term{sa.guard, sb.guard}, []*State{sa, sb})
+		st.heap, st.alloc, st.guard = m.heap, m.alloc, m.guard
+		if ra == nil && rb == nil {
+			return nil, true
+		}
+		return x.mergeVals(cond, ra, rb), true
+	}
+	if recv.kind == kApp && strings.HasPrefix(recv.op, "box_") && recv.op != "box_other" {
+		var bi *boxInfo
+		for _, k := range x.w.boxOrder {
+			if x.w.boxes[k].ctor == recv.op {
+				bi = x.w.boxes[k]
+			}
+		}
+		if bi == nil {
+			return nil, false
+		}
+		sel := x.prog.MethodSets.MethodSet(bi.typ).Lookup(c.Method.Pkg(), c.Method.Name())
+		if sel == nil {
+			return nil, false
+		}
+		fn := x.prog.MethodValue(sel)
+		if fn == nil {
+			return nil, false
+		}
+		cargs := append([]Value{recv.args[0]}, args...)
+		return x.staticCall(fr, ins, fn, nil, cargs, c, st), true
+	}
+	if recv.kind == kLeaf && recv.op == "iface_nil" {
+		st.guard = ts.False()
+		return x.havocResult(st, "nilrecv", c.Signature().Results()), true
+	}
+	if x.noOpaqueDispatch > 0 {
+		return nil, false
+	}
+	// opaque receiver: closed-world case split over the constructor types
+	// known so far that have the method; any other dynamic type: arbitrary result
+	var cands []*boxInfo
+	for _, k := range x.w.boxOrder {
+		bi := x.w.boxes[k]
+		if x.prog.MethodSets.MethodSet(bi.typ).Lookup(c.Method.Pkg(), c.Method.Name()) != nil {
+			cands = append(cands, bi)
+		}
+	}
+	if len(cands) == 0 || len(cands) > 10 {
+		return nil, false
+	}
+	x.noOpaqueDispatch++
+	defer func() { x.noOpaqueDispatch-- }()
+	var conds []*Term
+	var sts []*State
+	var vals []Value
+	rest := st.guard
+	for _, bi := range cands {
+		is := x.w.isBox(bi.typ, recv)
+		sub := st.clone()
+		sub.guard = ts.And(st.guard, is)
+		rest = ts.And(rest, ts.Not(is))
+		if sub.guard.isFalse() {
+			continue
+		}
+		payload := x.w.unbox(bi.typ, recv)
+		x.assume(ts.Implies(is, x.w.validFacts(payload, bi.typ, st.alloc, 0)))
+		v, ok := x.dispatch(fr, ins, c, x.w.box(bi.typ, payload), args, sub)
+		if !ok {
+			return nil, false
+		}
+		if sub.guard.isFalse() {
+			continue
+		}
+		conds = append(conds, sub.guard)
+		sts = append(sts, sub)
+		vals = append(vals, v)
+	}
+	if !rest.isFalse() {
+		sub := st.clone()
+		sub.guard = rest
+		x.note("dynamic call %s.%s on a type outside the contract's vocabulary: result arbitrary, no modelled state changed, no panic (assumed)", shortTypeString(c.Value.Type()), c.Method.Name())
+		conds = append(conds, rest)
+		sts = append(sts, sub)
+		vals = append(vals, x.havocResult(sub, "invoke_"+c.Method.Name(), c.Signature().Results()))
+	}
+	if len(sts) == 0 {
+		st.guard = ts.False()
+		return x.havocResult(st, "noreach", c.Signature().Results()), true
+	}
+	m := x.mergeStates(conds, sts)
+	st.heap, st.alloc, st.guard = m.heap, m.alloc, m.guard
+	var cur Value
+	for i := len(vals) - 1; i >= 0; i-- {
+		if cur == nil {
+			cur = vals[i]
+		} else if vals[i] != nil {
+			cur = x.mergeVals(conds[i], vals[i], cur)
+		}
+	}
+	return cur, true
+}
+
+// frameCheck: everything that existed before the call and is not named in a
+// modifies clause is unchanged (per heap component; skolemised reference).
+func (x *Exec) frameCheck(pre, post *State, ins ssa.Instruction) {
+	ts := x.w.ts
+	names := map[string]bool{}
+	for n := range post.heap {
+		names[n] = true
+	}
+	var sorted []string
+	for n := range names {
+		sorted = append(sorted, n)
+	}
+	sort.Strings(sorted)
+	savedFn := x.curFn
+	if x.targetFn != nil {
+		x.curFn = x.targetFn
+	}
+	defer func() { x.curFn = savedFn }()
+	for _, n := range sorted {
+		a1 := post.heap[n]
+		a0 := x.comp(pre, n, x.compSort[n])
+		if a0 == a1 {
+			continue
+		}
+		// expected: a0 updated at the declared locations with the new contents
+		exp := a0
+		whole := false
+		for _, m := range x.declaredModifies {
+			a := m.addr
+			if m.rowOf != nil {
+				if m.comp == n {
+					exp = ts.Store(exp, m.rowOf, ts.Select(a1, m.rowOf))
+				}
+				continue
+			}
+			switch a.root {
+			case rField:
+				cn, _ := x.fieldComp(a.structT, a.field)
+				if cn == n {
+					exp = ts.Store(exp, a.ref, ts.Select(a1, a.ref))
+				}
+			case rCell:
+				if st, ok := a.cellT.Underlying().(*types.Struct); ok {
+					for i := 0; i < st.NumFields(); i++ {
+						cn, _ := x.fieldComp(a.cellT, i)
+						if cn == n && (len(a.path) == 0 || (a.path[0].isField && a.path[0].field == i)) {
+							exp = ts.Store(exp, a.ref, ts.Select(a1, a.ref))
+						}
+					}
+				} else if cn, _ := x.cellComp(a.cellT); cn == n {
+					exp = ts.Store(exp, a.ref, ts.Select(a1, a.ref))
+				}
+			case rElem:
+				if cn, _ := x.elemComp(a.elemT); cn == n {
+					row0 := ts.Select(exp, a.arr)
+					exp = ts.Store(exp, a.arr, ts.Store(row0, a.idx, ts.Select(ts.Select(a1, a.arr), a.idx)))
+				}
+			case rGlobal:
+				if cn, _ := x.globComp(a.glob); cn == n {
+					whole = true
+				}
+			}
+		}
+		if whole {
+			continue
+		}
+		idxSort, _, isArr := a1.sort.arrParts()
+		if !isArr {
+			x.oblige(post, "frame", n, ts.Eq(a1, exp), ins.Pos())
+			continue
+		}
+		if idxSort != SInt {
+			x.oblige(post, "frame", n, ts.Eq(a1, exp), ins.Pos())
+			continue
+		}
+		r := x.w.Fresh("frame_ref", SInt)
+		old := ts.And(x.w.intLe(ts.IntLit(0), r), x.w.intLe(r, pre.alloc))
+		x.oblige(post, "frame", n, ts.Implies(old, ts.Eq(ts.Select(a1, r), ts.Select(exp, r))), ins.Pos())
+	}
 }
